@@ -22,6 +22,10 @@ def miri(mode, cases, workers=N, wall_cap=2400):
 VALGRIND = ["valgrind", "--error-exitcode=97", "--quiet", "--leak-check=no"]
 
 PLAN = {
+    "C01": {
+        "quick": [vh("", 2500, 70)],
+        "thorough": [vh("", 150000, 900)],
+    },
     "C14": {
         "quick": [
             vh("ops", 40000, 60),
@@ -42,6 +46,14 @@ PLAN = {
 }
 
 RULES = {
+    "C01": "A case is a seed font from /repo/tests (93 fonts + 206 AOTS fonts; TrueType, CFF, CFF2, variable, "
+           "sbix, SVG, WOFF, WOFF2, TTC) with 1-4 structure-aware faults (byte/field overwrites with boundary "
+           "values, truncation at table boundaries, directory surgery, targeted header fields of hot tables, table "
+           "removal/duplication/swap/splice) driven through every public entry point (load, tables, cmap, names, "
+           "metrics, images, outlines, shaping smoke, subset, prince::subset, whole_font, instance), each call "
+           "under panic / allocation / CPU-time monitors; supervisor attributes aborts, stack overflows and hangs. "
+           "Non-trivial = the faulted font was accepted by FontData::read and at least one deeper parser returned "
+           "Ok; distinct by hash of the faulted bytes.",
     "C14": "A case is a random program of 1-200 reader operations (typed reads of every ReadUnchecked "
            "type, array/stride/dep/upto reads with lengths up to usize::MAX, sub-scopes, slices, "
            "nibble scans, iteration, indexing, binary search, Cow wrappers) over a random 0-300 byte "
@@ -53,6 +65,9 @@ RULES = {
 }
 
 REQUIRED_CLASSES = {
+    "C01": {"quick": ["faulted-font-got-past-front-door", "ep:subset:ok", "ep:instance:ok", "ep:glyf.visit:ok",
+                      "ep:cff.visit:ok", "fault:truncate", "fault:dir"],
+            "thorough": ["faulted-font-got-past-front-door", "ep:subset:ok", "ep:instance:ok", "ep:cff2.visit:ok"]},
     "C14": {
         "quick": ["read:u8:ok", "read:u64:eof", "read_array:err:max", "read_array_stride:ok",
                   "array:bsearch-sorted", "array:cow", "scope.offset:out", "read_until_nibble:ok",
@@ -62,6 +77,11 @@ REQUIRED_CLASSES = {
 }
 
 ASSUMPTIONS = {
+    "C01": [
+        "thresholds: single allocation request > 1 GiB refused; peak live memory per call > 256 MiB + 512 B/input byte; CPU time per call > 4 s + 40 us/input byte; 120 s CPU per case; 8 MiB stack",
+        "strict build profile (opt-level 2, overflow-checks and debug-assertions on): arithmetic wrap-around that cargo test would trip is observed as a panic",
+        "only the generated faults are covered; nothing is claimed about inputs outside the fault operators' reach",
+    ],
     "C14": [
         "the shadow model (safe Rust on &[u8], checked arithmetic) is the specification of the reader",
         "the verif-hooks read-window assertion sees every primitive read (all ReadUnchecked impls delegate to the four hooked primitives)",
